@@ -22,7 +22,6 @@
 from __future__ import absolute_import
 import importlib
 
-from hl7apy.base_datatypes import WD
 from .messages import MESSAGES
 from .segments import SEGMENTS
 from .fields import FIELDS
@@ -30,7 +29,7 @@ from .datatypes import DATATYPES, DATATYPES_STRUCTS
 from .groups import GROUPS
 from .tables import TABLES
 
-from ..v2_7.base_datatypes import ST, FT, ID, IS, TX, GTS, SNM
+from ..v2_7.base_datatypes import ST, FT, ID, IS, TX, GTS, SNM, WD
 from hl7apy.exceptions import ChildNotFound
 
 ELEMENTS = {'Message': MESSAGES, 'Group': GROUPS, 'Segment': SEGMENTS,
